@@ -22,6 +22,11 @@ JWS_ALL = list(JWS_ALGS)
 
 @functools.lru_cache(maxsize=None)
 def _key(kind, which):
+    if kind.startswith("oct") and kind.endswith("t"):
+        # a secret that is text and ends in a line break (read from a file): n octets, the last one 0x0A; every octet is part of the key
+        n = int(kind[3:-1])
+        text = ("0123456789abcdefghijklmnopqrstuvwxyzABCDEFGHIJKLMNOPQRSTUVWXYZ-_" * 3)[which:which + n - 1] + "\n"
+        return {"kty": "oct", "k": b64.enc(text.encode())}
     if kind.startswith("oct"):
         return A.oct_jwk(int(kind[3:]), "hash", which)
     if kind == "rsa":
